@@ -223,3 +223,15 @@ Definition err_matches (now lw : Z) (opts : copts) (claims : cclaims) (e : exn) 
       viol_missing opts claims = false /\ some_claim (viol_early_one now lw) claims = true
   | _ => False
   end.
+
+(* the clauses one claim (k, v) violates call for class e *)
+Definition claim_err_matches (now lw : Z) (opts : copts) (k : str) (v : pv) (e : exn) : Prop :=
+  match e with
+  | EJose InvalidClaimError => viol_invalid_one opts k v = true
+  | EJose ExpiredTokenError => viol_expired_one now lw k v = true
+  | EJose InvalidTokenError => viol_early_one now lw k v = true
+  | _ => False
+  end.
+(* every clause about one claim holds (exp = now-leeway allowed) *)
+Definition claim_satisfied (now lw : Z) (opts : copts) (k : str) (v : pv) : bool :=
+  cl_value_one false opts k v && cl_blank_one opts k v && cl_number_one k v && cl_time_one false now lw k v.
